@@ -333,7 +333,7 @@ macro_rules! lru_seq {
 }
 
 // ---- all histories of length <= 3 that start with a touch -------------------------------------------
-// @family prop=C17 tier=quick timeout=900 mem=24 role=history-len3 ram=7
+// @family prop=C17 tier=quick timeout=900 mem=24 role=history-len3 ram=6
 // @bounds capacity in the name (c1,c2,c3) with key alphabet ALPHA[0..capacity+1] (all-zero key, first-byte-only key, last-byte-only key, all-ones key); EVERY history of length <= 3 (every prefix is compared) whose first step is touch(first key in the name) and whose later steps are any of touch(k)/remove(k)/evict_tail/evict_to_target(grid)/reset with any alphabet key; after every step: len, is_empty, capacity, contains (all keys), full recency order, return values vs a textbook LRU
 // @encodes cascette_client_storage::lru::LruManager::new, cascette_client_storage::lru::LruManager::touch, cascette_client_storage::lru::LruManager::remove, cascette_client_storage::lru::LruManager::evict_tail, cascette_client_storage::lru::LruManager::evict_to_target, cascette_client_storage::lru::LruManager::reset, cascette_client_storage::lru::LruManager::contains, cascette_client_storage::lru::LruManager::len, cascette_client_storage::lru::LruManager::is_empty, cascette_client_storage::lru::LruManager::for_each_entry, cascette_client_storage::lru::LruManager::unlink, cascette_client_storage::lru::LruManager::link_at_head, cascette_client_storage::lru::LruManager::detach_tail
 // @assumes hook H6: under cfg(kani) LruManager::key_map is a std BTreeMap instead of the std HashMap (same map contract; hashbrown does not finish); tracing neutralised (3 stubs); representation invariant read through the add-only cfg(kani) hook LruManager::verif_invariants_ok (walk tail->head via next: prev links, end at head, key_map[key]==slot, free list disjoint/cleared, list+free == slots) asserted after every step; for_each_entry is compared on the non-zero keys only (a live all-zero key is skipped: known finding KF-2, c17_kf2_*); evict_to_target arguments from the 3-point grid (7,7)/(8,7)/(1,0) = exactly one / two / all entries (fully symbolic arguments: c17_evict_to_target_sym_*)
@@ -344,24 +344,24 @@ lru_seq!(c17_hist_c2_t0_t_a, 2, 3, [T0 T A]);
 lru_seq!(c17_hist_c2_t0_n_a, 2, 3, [T0 N A]);
 lru_seq!(c17_hist_c2_t1_t_a, 2, 3, [T1 T A]);
 lru_seq!(c17_hist_c2_t1_n_a, 2, 3, [T1 N A]);
-lru_seq!(c17_hist_c2_t2_t_a, 2, 3, [T2 T A]);
-lru_seq!(c17_hist_c2_t2_n_a, 2, 3, [T2 N A]);
 lru_seq!(c17_hist_c3_t0_tl_a, 3, 4, [T0 TL A]);
 lru_seq!(c17_hist_c3_t0_th_a, 3, 4, [T0 TH A]);
 lru_seq!(c17_hist_c3_t0_r_a, 3, 4, [T0 R A]);
 lru_seq!(c17_hist_c3_t0_x_a, 3, 4, [T0 X A]);
-lru_seq!(c17_hist_c3_t1_tl_a, 3, 4, [T1 TL A]);
-lru_seq!(c17_hist_c3_t1_th_a, 3, 4, [T1 TH A]);
-lru_seq!(c17_hist_c3_t1_r_a, 3, 4, [T1 R A]);
-lru_seq!(c17_hist_c3_t1_x_a, 3, 4, [T1 X A]);
 // @end
 // (capacity-3 histories starting with key 2 or 3 are data-renamings of those starting with key 0 or 1 up to the
 // concrete key bytes; they run in the thorough tier to keep the quick tier under ten minutes)
-// @family prop=C17 tier=thorough timeout=1800 mem=24 role=history-len3-c3-first-key-variants ram=7
+// @family prop=C17 tier=thorough timeout=1800 mem=24 role=history-len3-c3-first-key-variants ram=6
 // @bounds capacity in the name (c1,c2,c3) with key alphabet ALPHA[0..capacity+1] (all-zero key, first-byte-only key, last-byte-only key, all-ones key); EVERY history of length <= 3 (every prefix is compared) whose first step is touch(first key in the name) and whose later steps are any of touch(k)/remove(k)/evict_tail/evict_to_target(grid)/reset with any alphabet key; after every step: len, is_empty, capacity, contains (all keys), full recency order, return values vs a textbook LRU
 // @encodes cascette_client_storage::lru::LruManager::new, cascette_client_storage::lru::LruManager::touch, cascette_client_storage::lru::LruManager::remove, cascette_client_storage::lru::LruManager::evict_tail, cascette_client_storage::lru::LruManager::evict_to_target, cascette_client_storage::lru::LruManager::reset, cascette_client_storage::lru::LruManager::contains, cascette_client_storage::lru::LruManager::len, cascette_client_storage::lru::LruManager::is_empty, cascette_client_storage::lru::LruManager::for_each_entry, cascette_client_storage::lru::LruManager::unlink, cascette_client_storage::lru::LruManager::link_at_head, cascette_client_storage::lru::LruManager::detach_tail
 // @assumes hook H6: under cfg(kani) LruManager::key_map is a std BTreeMap instead of the std HashMap (same map contract; hashbrown does not finish); tracing neutralised (3 stubs); representation invariant read through the add-only cfg(kani) hook LruManager::verif_invariants_ok (walk tail->head via next: prev links, end at head, key_map[key]==slot, free list disjoint/cleared, list+free == slots) asserted after every step; for_each_entry is compared on the non-zero keys only (a live all-zero key is skipped: known finding KF-2, c17_kf2_*); evict_to_target arguments from the 3-point grid (7,7)/(8,7)/(1,0) = exactly one / two / all entries (fully symbolic arguments: c17_evict_to_target_sym_*)
 // @catches touch not moving an existing key to the head, wrong victim on a full LRU, unlink/link_at_head pointer mistakes (head/tail/middle, incl. a wrong `prev` back-pointer that stays latent for the public observers), remove or reset not returning slots to the free list, stale key_map entries after eviction, evict_to_target loop boundary (<= vs <), len/contains/order disagreeing with each other, capacity exceeded, key compares that ignore the last byte or treat the all-zero key as absent
+lru_seq!(c17_hist_c2_t2_t_a, 2, 3, [T2 T A]);
+lru_seq!(c17_hist_c2_t2_n_a, 2, 3, [T2 N A]);
+lru_seq!(c17_hist_c3_t1_tl_a, 3, 4, [T1 TL A]);
+lru_seq!(c17_hist_c3_t1_th_a, 3, 4, [T1 TH A]);
+lru_seq!(c17_hist_c3_t1_r_a, 3, 4, [T1 R A]);
+lru_seq!(c17_hist_c3_t1_x_a, 3, 4, [T1 X A]);
 lru_seq!(c17_hist_c3_t2_tl_a, 3, 4, [T2 TL A]);
 lru_seq!(c17_hist_c3_t2_th_a, 3, 4, [T2 TH A]);
 lru_seq!(c17_hist_c3_t2_r_a, 3, 4, [T2 R A]);
@@ -373,7 +373,7 @@ lru_seq!(c17_hist_c3_t3_x_a, 3, 4, [T3 X A]);
 // @end
 
 // ---- capacity 3 filled, then any operation (length 4) ------------------------------------------------
-// @family prop=C17 tier=quick timeout=900 mem=24 role=history-full3 ram=7
+// @family prop=C17 tier=quick timeout=900 mem=24 role=history-full3 ram=6
 // @bounds capacity 3, 4-key alphabet; the LRU is filled with three distinct keys (first two in the name, third any other key), then ANY single operation (touch/remove of any of the 4 keys, evict_tail, evict_to_target grid, reset) = length-4 histories covering eviction of the true tail, re-touch of tail/middle/head, removal of tail/middle/head
 // @encodes cascette_client_storage::lru::LruManager::new, cascette_client_storage::lru::LruManager::touch, cascette_client_storage::lru::LruManager::remove, cascette_client_storage::lru::LruManager::evict_tail, cascette_client_storage::lru::LruManager::evict_to_target, cascette_client_storage::lru::LruManager::reset, cascette_client_storage::lru::LruManager::contains, cascette_client_storage::lru::LruManager::len, cascette_client_storage::lru::LruManager::is_empty, cascette_client_storage::lru::LruManager::for_each_entry, cascette_client_storage::lru::LruManager::unlink, cascette_client_storage::lru::LruManager::link_at_head, cascette_client_storage::lru::LruManager::detach_tail
 // @assumes hook H6: under cfg(kani) LruManager::key_map is a std BTreeMap instead of the std HashMap (same map contract; hashbrown does not finish); tracing neutralised (3 stubs); representation invariant read through the add-only cfg(kani) hook LruManager::verif_invariants_ok (walk tail->head via next: prev links, end at head, key_map[key]==slot, free list disjoint/cleared, list+free == slots) asserted after every step; for_each_entry is compared on the non-zero keys only (a live all-zero key is skipped: known finding KF-2, c17_kf2_*); evict_to_target arguments from the 3-point grid (7,7)/(8,7)/(1,0) = exactly one / two / all entries (fully symbolic arguments: c17_evict_to_target_sym_*)
@@ -384,7 +384,7 @@ lru_seq!(c17_full3_t2_t3_d_a, 3, 4, [T2 T3 D A]);
 lru_seq!(c17_full3_t3_t0_d_a, 3, 4, [T3 T0 D A]);
 // @end
 
-// @family prop=C17 tier=thorough timeout=1800 mem=24 role=history-full3 ram=7
+// @family prop=C17 tier=thorough timeout=1800 mem=24 role=history-full3 ram=6
 // @bounds capacity 3, 4-key alphabet; the LRU is filled with three distinct keys (first two in the name, third any other key), then ANY single operation (touch/remove of any of the 4 keys, evict_tail, evict_to_target grid, reset) = length-4 histories covering eviction of the true tail, re-touch of tail/middle/head, removal of tail/middle/head
 // @encodes cascette_client_storage::lru::LruManager::new, cascette_client_storage::lru::LruManager::touch, cascette_client_storage::lru::LruManager::remove, cascette_client_storage::lru::LruManager::evict_tail, cascette_client_storage::lru::LruManager::evict_to_target, cascette_client_storage::lru::LruManager::reset, cascette_client_storage::lru::LruManager::contains, cascette_client_storage::lru::LruManager::len, cascette_client_storage::lru::LruManager::is_empty, cascette_client_storage::lru::LruManager::for_each_entry, cascette_client_storage::lru::LruManager::unlink, cascette_client_storage::lru::LruManager::link_at_head, cascette_client_storage::lru::LruManager::detach_tail
 // @assumes hook H6: under cfg(kani) LruManager::key_map is a std BTreeMap instead of the std HashMap (same map contract; hashbrown does not finish); tracing neutralised (3 stubs); representation invariant read through the add-only cfg(kani) hook LruManager::verif_invariants_ok (walk tail->head via next: prev links, end at head, key_map[key]==slot, free list disjoint/cleared, list+free == slots) asserted after every step; for_each_entry is compared on the non-zero keys only (a live all-zero key is skipped: known finding KF-2, c17_kf2_*); evict_to_target arguments from the 3-point grid (7,7)/(8,7)/(1,0) = exactly one / two / all entries (fully symbolic arguments: c17_evict_to_target_sym_*)
@@ -400,7 +400,7 @@ lru_seq!(c17_full3_t3_t2_d_a, 3, 4, [T3 T2 D A]);
 // @end
 
 // ---- histories that do not start with a touch -------------------------------------------------------
-// @family prop=C17 tier=quick timeout=900 mem=24 role=history-nontouch-first ram=7
+// @family prop=C17 tier=quick timeout=900 mem=24 role=history-nontouch-first ram=6
 // @bounds capacity 2, 3-key alphabet; first step any of remove(k)/evict_tail/evict_to_target(grid)/reset on the EMPTY LRU, then any operation (length 2)
 // @encodes cascette_client_storage::lru::LruManager::new, cascette_client_storage::lru::LruManager::touch, cascette_client_storage::lru::LruManager::remove, cascette_client_storage::lru::LruManager::evict_tail, cascette_client_storage::lru::LruManager::evict_to_target, cascette_client_storage::lru::LruManager::reset, cascette_client_storage::lru::LruManager::contains, cascette_client_storage::lru::LruManager::len, cascette_client_storage::lru::LruManager::is_empty, cascette_client_storage::lru::LruManager::for_each_entry, cascette_client_storage::lru::LruManager::unlink, cascette_client_storage::lru::LruManager::link_at_head, cascette_client_storage::lru::LruManager::detach_tail
 // @assumes hook H6: under cfg(kani) LruManager::key_map is a std BTreeMap instead of the std HashMap (same map contract; hashbrown does not finish); tracing neutralised (3 stubs); representation invariant read through the add-only cfg(kani) hook LruManager::verif_invariants_ok (walk tail->head via next: prev links, end at head, key_map[key]==slot, free list disjoint/cleared, list+free == slots) asserted after every step; for_each_entry is compared on the non-zero keys only (a live all-zero key is skipped: known finding KF-2, c17_kf2_*); evict_to_target arguments from the 3-point grid (7,7)/(8,7)/(1,0) = exactly one / two / all entries (fully symbolic arguments: c17_evict_to_target_sym_*)
@@ -409,7 +409,7 @@ lru_seq!(c17_hist_c2_n_a, 2, 3, [N A]);
 // @end
 
 // ---- bump_generation interleaved ---------------------------------------------------------------------
-// @family prop=C17 tier=quick timeout=900 mem=24 role=history-bump-generation ram=7
+// @family prop=C17 tier=quick timeout=900 mem=24 role=history-bump-generation ram=6
 // @bounds capacity 2, 2-key alphabet; bump_generation before/after touch, remove/evict/reset: generation = previous + 1, prev_generation = previous, LRU content untouched (wrap at u64::MAX -> 1 is NOT reachable: the generation field is private and starts at 1)
 // @encodes cascette_client_storage::lru::LruManager::new, cascette_client_storage::lru::LruManager::touch, cascette_client_storage::lru::LruManager::remove, cascette_client_storage::lru::LruManager::evict_tail, cascette_client_storage::lru::LruManager::evict_to_target, cascette_client_storage::lru::LruManager::reset, cascette_client_storage::lru::LruManager::contains, cascette_client_storage::lru::LruManager::len, cascette_client_storage::lru::LruManager::is_empty, cascette_client_storage::lru::LruManager::for_each_entry, cascette_client_storage::lru::LruManager::unlink, cascette_client_storage::lru::LruManager::link_at_head, cascette_client_storage::lru::LruManager::detach_tail
 // @assumes hook H6: under cfg(kani) LruManager::key_map is a std BTreeMap instead of the std HashMap (same map contract; hashbrown does not finish); tracing neutralised (3 stubs); representation invariant read through the add-only cfg(kani) hook LruManager::verif_invariants_ok (walk tail->head via next: prev links, end at head, key_map[key]==slot, free list disjoint/cleared, list+free == slots) asserted after every step; for_each_entry is compared on the non-zero keys only (a live all-zero key is skipped: known finding KF-2, c17_kf2_*); evict_to_target arguments from the 3-point grid (7,7)/(8,7)/(1,0) = exactly one / two / all entries (fully symbolic arguments: c17_evict_to_target_sym_*)
@@ -418,7 +418,7 @@ lru_seq!(c17_hist_c2_bump, 2, 2, [B T B N B T]);
 // @end
 
 // ---- thorough: all histories of length <= 4 at capacity 1 and 2 ----------------------------------------
-// @family prop=C17 tier=thorough timeout=1800 mem=24 role=history-len4 ram=7
+// @family prop=C17 tier=thorough timeout=1800 mem=24 role=history-len4 ram=6
 // @bounds capacity 1 (2-key alphabet; the capacity-2 instances are un-registered: out of memory in the thorough tier): EVERY history of length <= 4 starting with a touch (first key and second operation in the name: t<k> touch, r<k> remove, e evict_tail, g<i> evict_to_target grid point, z reset), later steps any of touch/remove/evict_tail/evict_to_target(grid)/reset with any alphabet key
 // @encodes cascette_client_storage::lru::LruManager::new, cascette_client_storage::lru::LruManager::touch, cascette_client_storage::lru::LruManager::remove, cascette_client_storage::lru::LruManager::evict_tail, cascette_client_storage::lru::LruManager::evict_to_target, cascette_client_storage::lru::LruManager::reset, cascette_client_storage::lru::LruManager::contains, cascette_client_storage::lru::LruManager::len, cascette_client_storage::lru::LruManager::is_empty, cascette_client_storage::lru::LruManager::for_each_entry, cascette_client_storage::lru::LruManager::unlink, cascette_client_storage::lru::LruManager::link_at_head, cascette_client_storage::lru::LruManager::detach_tail
 // @assumes hook H6: under cfg(kani) LruManager::key_map is a std BTreeMap instead of the std HashMap (same map contract; hashbrown does not finish); tracing neutralised (3 stubs); representation invariant read through the add-only cfg(kani) hook LruManager::verif_invariants_ok (walk tail->head via next: prev links, end at head, key_map[key]==slot, free list disjoint/cleared, list+free == slots) asserted after every step; for_each_entry is compared on the non-zero keys only (a live all-zero key is skipped: known finding KF-2, c17_kf2_*); evict_to_target arguments from the 3-point grid (7,7)/(8,7)/(1,0) = exactly one / two / all entries (fully symbolic arguments: c17_evict_to_target_sym_*)
